@@ -20,7 +20,7 @@ def cases(seed, tier):
                 cs.append((f'a{k}', f'bw|{g}|{p}|{d}'))
                 k += 1
     dist['exhaustive_2x2'] = len(p22)
-    n = 25000 if tier == 'quick' else 3000000
+    n = 25000 if tier == 'quick' else 6000000
     sizes = [(3, 2), (2, 3), (3, 2), (2, 3), (4, 2), (2, 4), (3, 3), (5, 2), (6, 2), (2, 6), (4, 3)]
     for i in range(n):
         S, C = rng.choice(sizes)
